@@ -587,11 +587,17 @@ static void sub_normalgravity(Ctx& ctx, bool T) {
     {"sphere-static", 6378137, 3.986004418e14, 0, 0, true},
     {"prolate-1/150", 6378137, 3.986004418e14, 7.292115e-5, -1.0 / 150, true},
     {"prolate-0.1", 6378137, 3.986004418e14, 7.292115e-5, -0.1, true},
+    // strongly prolate (f <= -0.1547: e'^2/(1+e'^2)-type arguments >= 1/4, the closed-form branches of Qf/Hf/QH3f for alt = true)
+    {"prolate-0.2", 6378137, 3.986004418e14, 7.292115e-5, -0.2, true},
+    {"prolate-0.5", 6378137, 3.986004418e14, 7.292115e-5, -0.5, true},
+    {"prolate-0.2-fast", 1, 1, 0.3, -0.2, true},
+    // strongly oblate (closed-form branches for alt = false)
+    {"oblate-0.3", 6378137, 3.986004418e14, 7.292115e-5, 0.3, true},
     {"oblate-0.1", 6378137, 3.986004418e14, 7.292115e-5, 0.1, true},
     {"unit-J2", 1, 1, 0.05, 0.01, false},
   };
   if (T) { sets.push_back({"oblate-0.5", 6378137, 3.986004418e14, 7.292115e-5, 0.5, true}); sets.push_back({"unit-f", 1, 1, 0.3, 0.2, true}); sets.push_back({"J2-jupiter-like", 7.1492e7, 1.26686534e17, 1.7585e-4, 0.014736, false}); }
-  ctx.bound("normalgravity.sets", fmti((long long)sets.size()) + " parameter sets (a, GM, omega, f | J2): WGS84, GRS80 (J2), omega = 0, sphere (rotating and not), prolate, f = 0.1" + (T ? ", 0.5, unit systems, Jupiter-like J2" : ", unit system (J2)") + "; + the static WGS84()/GRS80() objects");
+  ctx.bound("normalgravity.sets", fmti((long long)sets.size()) + " parameter sets (a, GM, omega, f | J2): WGS84, GRS80 (J2), omega = 0, sphere (rotating and not), prolate f = -1/150, -0.1, -0.2, -0.5 (omega != 0, both branches of the auxiliary functions), f = 0.1, 0.3" + (T ? ", 0.5, unit systems, Jupiter-like J2" : ", unit system (J2)") + "; + the static WGS84()/GRS80() objects");
   ctx.bound("normalgravity.points", "U on 50 surface points (25 latitudes x 2 longitudes); gradient and divergence at 6 latitudes x 2 longitudes x heights {0, 1e3, 1e5, 1e7 m}(scaled by a) by 6th-order central differences (h = a/4096) of the library's own U and gamma; Somigliana at 25 latitudes; J_n series at r/a in {1.5, 2, 5}");
   ctx.note("normalgravity tolerances are round-off claims: calibrated on the unchanged tree (>= 4 x worst observed, see worst{normal.*}) and frozen as literals: 32 eps of the magnitudes involved (U: |GM|/b + omega^2 a^2; gamma: |GM|/a^2 + omega^2 a; J2/f: |f| + |J2| + m); gradient by 6th-order differences 1e-11 relative (worst observed 1.4e-12); divergence/curl 2e-11 gamma/a (worst observed 4e-12)");
   const double e = EPS;
@@ -609,8 +615,9 @@ static void sub_normalgravity(Ctx& ctx, bool T) {
     const NormalGravity& G = *ngp;
     const double f = G.Flattening(), J2 = G.DynamicalFormFactor(), a = P.a, b = a * (1 - f);
     mc::Fields F{{"set", name}, {"shape", f == 0 ? "sphere" : f > 0 ? "oblate" : "prolate"}};
-    const bool haveo = f >= 0;                                             // closed-form oracle available
-    std::unique_ptr<sph::ng::Ell> ell; if (haveo) ell.reset(new sph::ng::Ell(Q(a), Q(P.GM), Q(P.omega), Q(f)));
+    const bool haveo = true;                                               // closed-form constants: every f (prolate by analytic continuation)
+    const bool havef = f >= 0;                                             // closed-form field V0(X,Y,Z): oblate and sphere only
+    std::unique_ptr<sph::ng::Ell> ell(new sph::ng::Ell(Q(a), Q(P.GM), Q(P.omega), Q(f)));
     const Q U0 = G.SurfacePotential(), gsc = sph::qabs(Q(P.GM)) / (Q(a) * a) + Q(P.omega) * P.omega * a, usc = sph::qabs(Q(P.GM)) / std::min(a, b) + Q(P.omega) * P.omega * a * a;
     // ---- constants
     {
@@ -629,7 +636,7 @@ static void sub_normalgravity(Ctx& ctx, bool T) {
         fl.num("normal.oracle.gammap", "oracle", "PolarGravity vs closed form", G.PolarGravity(), ell->gammap, Q(16 * e) * gsc);
         fl.num("normal.oracle.J2", "oracle", "DynamicalFormFactor vs closed form of Flattening()", J2, ell->J2, Q(32 * e) * sc);
         for (int n = 4; n <= 20; n += 2) {
-          Q Jn = ell->Jn(n), mag = 3 * powq(sph::qabs(Q(f) * (2 - Q(f))), n / 2) / (Q(n + 1) * Q(n + 3)) * (Q(n / 2 - 1) + (f != 0 ? 5 * Q(n / 2) * sph::qabs(ell->J2) / (Q(f) * (2 - Q(f))) : Q(0)));
+          Q Jn = ell->Jn(n), mag = 3 * powq(sph::qabs(Q(f) * (2 - Q(f))), n / 2) / (Q(n + 1) * Q(n + 3)) * (Q(n / 2 - 1) + (f != 0 ? 5 * Q(n / 2) * sph::qabs(ell->J2) / sph::qabs(Q(f) * (2 - Q(f))) : Q(0)));
           Fail fj = fl; fj.F.push_back({"n", fmti(n)});
           fj.num("normal.oracle.Jn", "Jn", "DynamicalFormFactor(" + fmti(n) + ") vs H+M 2-92", G.DynamicalFormFactor(n), Jn, Q(32 * e) * mag);
         }
@@ -644,7 +651,7 @@ static void sub_normalgravity(Ctx& ctx, bool T) {
       double j = NormalGravity::FlatteningToJ2(a, P.GM, P.omega, ff), f2 = NormalGravity::J2ToFlattening(a, P.GM, P.omega, j);
       Q m = Q(P.omega) * P.omega * a * a * a / P.GM;
       fl.num("normal.roundtrip", "J2-f", "J2ToFlattening(FlatteningToJ2(f))", f2, ff, Q(32 * e) * (sph::qabs(Q(ff)) + sph::qabs(Q(j)) + sph::qabs(m)) / (1 - Q(ff)));
-      if (ff >= 0 && ff < 0.95) { sph::ng::Ell E(Q(a), Q(P.GM), Q(P.omega), Q(ff)); fl.num("normal.oracle.J2_of_f", "oracle", "FlatteningToJ2 vs closed form", j, E.J2, Q(32 * e) * (sph::qabs(Q(ff)) + sph::qabs(E.J2) + sph::qabs(m))); }
+      if (ff < 0.95) { sph::ng::Ell E(Q(a), Q(P.GM), Q(P.omega), Q(ff)); fl.num("normal.oracle.J2_of_f", "oracle", "FlatteningToJ2 vs closed form", j, E.J2, Q(32 * e) * (sph::qabs(Q(ff)) + sph::qabs(E.J2) + sph::qabs(m))); }
     }
     // ---- U constant on the ellipsoid, Somigliana
     for (int il = 0; il <= 24; ++il) {
@@ -697,7 +704,7 @@ static void sub_normalgravity(Ctx& ctx, bool T) {
       fl.num("normal.div_Gamma", "laplacian", "div Gamma (V0 harmonic)", dV[0] + dV[4] + dV[8], 0, dtol);
       // the gradient is symmetric (curl-free)
       fl.num("normal.curl", "laplacian", "d gammaX/dZ - d gammaZ/dX", dG[2 * 3 + 0] - dG[0 * 3 + 2], 0, dtol);
-      if (haveo) {
+      if (havef) {
         Q Uq = ell->U(Q(X), Q(Y), Q(Z)), gq[3];
         sph::grad_fd8([&](Q x, Q y, Q z) { return ell->U(x, y, z); }, Q(X), Q(Y), Q(Z), Q(r) * Q(1e-5), gq);
         fl.num("normal.oracle.U", "oracle", "U vs closed form (float128)", U, Uq, Q(32 * e) * usc);
